@@ -204,7 +204,7 @@ def shrink(desc, scratch=None, budget=250):
 
 # ---------------------------------------------------------------------------
 TIERS = {
-    'quick': {'runs': 16000, 'deadline': 90.0, 'min_runs': 800},
+    'quick': {'runs': 12000, 'deadline': 100.0, 'min_runs': 800},
     'thorough': {'runs': 400000, 'deadline': 2400.0, 'min_runs': 20000},
 }
 
@@ -249,5 +249,5 @@ PROBES = ['append_ok', 'append_after_copy', 'append_after_raw_reread', 'append_l
           'append_to_missing', 'append_after_missing_refusal_and_recreate',
           'append_string_array_column', 'append_enum_column', 'append_empty', 'write_copy',
           'write_self_recreates_deleted_file', 'write_ndarray_over_existing', 'start_from_external_file', 'append_after_missing_refusal_and_external_restore',
-          'append_pair_value_the_format_cannot_carry',
+          'append_pair_value_the_format_cannot_carry', 'append_rows_with_other_field_order',
           'write_with_custom_comments', 'append_widens_variable_length_char_column']
